@@ -17,6 +17,7 @@ func init() {
 func runC10(r *engine.Run) {
 	r.Rule("ORDER-recompute", "in every success arm of verifyProof the verified child (result of the recursive verification) is stored into the node, dirty=true is stored and CalcHash() is called on that node, all before the node is returned; VerifyBlockProof returns Hash() of exactly that node: no wire-provided hash reaches the result without being recomputed")
 	r.Rule("DOM-range", "verifyProof's value and shared-prefix arms succeed only when block > node.Weight() tested false; the branch arm descends only under block <= child.Weight(), carries block - skipped weight, and reports ErrWeightNotInRange when the children are exhausted")
+	r.Rule("AGREE-limits", "see C12: proof verification decodes with the same CBOR limits as the export importer (an honest proof of a full-depth path has one element more than the key has nibbles and must not be rejected for its size)")
 	r.Rule("AGREE-bind", "navigated-by is a subset of committed-to: what verifyProof reads from a node's children to decide where to descend (their Weight()) must be part of what that node kind's CalcHash appends to its pre-image per child; a value node's pre-image contains its weight and value")
 	r.NotDec = append(r.NotDec, "absence of other forgeries (a statement over all byte strings)", "that honest proofs verify for every content (value-level)")
 	f := r.Fn("ORDER-recompute", pkgWMPT, "", "verifyProof")
@@ -26,6 +27,7 @@ func runC10(r *engine.Run) {
 	orderRecompute(r, f)
 	domRangeVerify(r, f)
 	agreeBind(r, f)
+	agreeLimits(r, "AGREE-limits")
 }
 
 func orderRecompute(r *engine.Run, f *ssa.Function) {
